@@ -122,6 +122,7 @@ type sessJob struct {
 	NoTime   bool     `json:"notime"`   // frozen clock
 	Stats    string   `json:"stats"`    // JSON summary output
 	ZeroWait bool     `json:"zerowait"` // acceptance waits forced to 0
+	Tb       []string `json:"tb"`       // replay: the tie-breakers of A and B (decimal); empty: drawn from the boundary pool
 }
 
 // ---------- model-level message record (field names are the TLA+ record fields)
@@ -346,6 +347,26 @@ func runSession(t *testing.T, cfg *sessCfg, job *sessJob, rng *mrand.Rand, sched
 	lf.DefaultLogLevel = logging.LogLevelDisabled
 	S := map[string]*side{}
 	ms := func(v int) time.Duration { return time.Duration(v) * time.Millisecond }
+	// tie-breakers: the configuration fixes only their order (TbCmp); the values come from a pool of 64-bit boundary pairs
+	// (a comparison that truncates to 32 bits, is signed, or is off by one at the ends decides some of them the other way)
+	tbs := map[string]uint64{}
+	{
+		hiLo := [][2]uint64{{200, 100}, {1<<64 - 1, 1}, {1 << 63, 1<<63 - 1}, {1<<32 + 1, 2}, {2, 1}, {1<<64 - 1, 1<<64 - 2},
+			{1<<63 + 5, 7}, {1 << 32, 1<<32 - 1}, {1<<64 - 1, 1 << 63}, {3 << 32, 1<<32 + 7}, {5, 0}, {1<<64 - 1, 0}}
+		eq := []uint64{150, 1, 1<<64 - 1, 1 << 63, 1 << 32, 0}
+		k := rng.Intn(1 << 20)
+		switch {
+		case len(job.Tb) == 2:
+			tbs["A"], _ = strconv.ParseUint(job.Tb[0], 10, 64)
+			tbs["B"], _ = strconv.ParseUint(job.Tb[1], 10, 64)
+		case cfg.TbCmp == 0:
+			tbs["A"], tbs["B"] = eq[k%len(eq)], eq[k%len(eq)]
+		case cfg.TbCmp > 0:
+			tbs["A"], tbs["B"] = hiLo[k%len(hiLo)][0], hiLo[k%len(hiLo)][1]
+		default:
+			tbs["A"], tbs["B"] = hiLo[k%len(hiLo)][1], hiLo[k%len(hiLo)][0]
+		}
+	}
 	for _, n := range []string{"A", "B"} {
 		las := []string{}
 		for _, l := range cfg.Loc[n] {
@@ -395,13 +416,7 @@ func runSession(t *testing.T, cfg *sessCfg, job *sessJob, rng *mrand.Rand, sched
 		if err != nil {
 			t.Fatal(err)
 		}
-		tb := uint64(100)
-		if (n == "A") == (cfg.TbCmp > 0) {
-			tb = 200
-		}
-		if cfg.TbCmp == 0 {
-			tb = 150
-		}
+		tb := tbs[n]
 		ag.VerifSetTieBreaker(tb)
 		if cfg.TCPRemote {
 			// the attacker's address x9 is signalled as a TCP (passive) remote candidate: known, but on another transport.
@@ -798,7 +813,8 @@ func runSession(t *testing.T, cfg *sessCfg, job *sessJob, rng *mrand.Rand, sched
 		sn := S[n].ag.VerifSnapshot()
 		idBase[n] = int(sn.NextPairID) - len(sn.Pairs)
 	}
-	emit(map[string]any{"ev": "Reset", "cfg": job.Cfg, "preResidue": preResidue, "idBase": idBase, "post": snap()})
+	emit(map[string]any{"ev": "Reset", "cfg": job.Cfg, "preResidue": preResidue, "idBase": idBase, "post": snap(),
+		"tb": []string{strconv.FormatUint(tbs["A"], 10), strconv.FormatUint(tbs["B"], 10)}})
 	loss, dup, inj, rst, renoms, badRenoms, dataOps, pidCtr, closes := 0, 0, 0, 0, 0, 0, 0, 0, 0
 	type act struct {
 		ev, ag string
